@@ -652,13 +652,45 @@ def r12_dropping_a_handle_tells_the_background_task(ctx):
     R.check({"SubscriptionClosed", "UnregisterNotification"} <= kinds and bool(sends), "C18.R12", "drop:announces-both-kinds", "dropping a handle announces a subscription and a notification handler alike", "Drop for Subscription announces %s only: the other kind of handle stays registered in the request manager after it was dropped" % (sorted(kinds) or "nothing"), "%s:%d" % (bs[0].file, bs[0].lo))
 
 
+def r13_an_unsubscribed_subscription_gets_its_unsubscribe_call(ctx):
+    """`RequestManager::unsubscribe` moves a subscription to `unsubscribe pending`; the entries it leaves are released by
+    the acknowledgement of the unsubscribe call. So once it returned Some, `build_unsubscribe_message` builds that call on
+    every path (an early `return None` for, say, an empty method name leaves the reserved id in the table for ever); and
+    (= C05.R15) the read path never calls it before the send task has built the message."""
+    F, R = ctx.F, ctx.R
+    b = F.one(r"^jsonrpsee_core::client::async_client::helpers::build_unsubscribe_message$")
+    R.fn(b)
+    un = b.calls_to(r"RequestManager::unsubscribe$")
+    built = {bi for bi, blk in enumerate(b.blocks) if bi in b.reachable for st in blk["st"] if st["s"] == "assign" and st["rv"]["k"] == "agg" and (st["rv"].get("adt") or "").endswith("client::RequestMessage")}
+    R.floor("C18.R13", len(un), 1, "RequestManager::unsubscribe in build_unsubscribe_message")
+    # the only ways out without the message are the `?`s on infallible-in-practice serialisation (residual returns)
+    resid = {c.bb for c in b.calls_to(r"FromResidual(<.*>)?>?::from_residual$")}
+    for c in un:
+        some_t = None
+        for br in b.calls_to(r"Try>?::branch$"):
+            if arg_is_local(b, br.args[0], c.dest["l"]):
+                for sb, arms, other in flow.switch_on(b, br.dest["l"]):
+                    some_t = arms.get("0")
+        for sb, arms, other in flow.switch_on(b, c.dest["l"]):
+            if some_t is None:
+                some_t = arms.get("1")
+        if some_t is None:
+            R.anchor_lost("C18.R13", "the Some arm of RequestManager::unsubscribe in build_unsubscribe_message")
+            continue
+        free = (b.reach_from(some_t, avoid=built | resid) | {some_t}) - built - resid
+        bad = sorted(x for x in free if x in b.exits)
+        R.check(bool(built) and not bad, "C18.R13", "unsubscribed->message-built", "after unsubscribe() returned Some the unsubscribe call is built", "build_unsubscribe_message can return without the unsubscribe call after RequestManager::unsubscribe has already marked the subscription `unsubscribe pending`: nothing will ever acknowledge it, the reserved request id stays in the table", "%s:%d" % (b.file, block_line(b, bad[0]) if bad else b.lo))
+    from . import c05
+    c05.r15_routing_does_not_end_subscriptions(ctx)
+
+
 def rkeys_manager_keys_not_derived(ctx):
     """ids are matched exactly"""
     from .common import manager_keys_not_derived
     manager_keys_not_derived(ctx, "C18.KEYS")
 
 
-RULES = [r10_explicit_unsubscribe_is_not_best_effort, r9_one_ordered_queue_into_the_send_task, r7_failed_write_ends_the_task, r8_handoff_queue_is_lossless, r1_effect_summaries, r2_ledger, r3_notification_arms, r4_lost_drop_is_recovered, r5_no_unaccounted_success_path, r6_no_state_outside_the_manager, rarr_every_element, rkeys_manager_keys_not_derived, r11_reply_for_no_pending_call_is_fatal, r12_dropping_a_handle_tells_the_background_task] + BORROWED
+RULES = [r10_explicit_unsubscribe_is_not_best_effort, r9_one_ordered_queue_into_the_send_task, r7_failed_write_ends_the_task, r8_handoff_queue_is_lossless, r1_effect_summaries, r2_ledger, r3_notification_arms, r4_lost_drop_is_recovered, r5_no_unaccounted_success_path, r6_no_state_outside_the_manager, rarr_every_element, rkeys_manager_keys_not_derived, r11_reply_for_no_pending_call_is_fatal, r12_dropping_a_handle_tells_the_background_task, r13_an_unsubscribed_subscription_gets_its_unsubscribe_call] + BORROWED
 
 LEVEL_TEXT = (
     "A ledger over the client's four private tables decided from the type-checked program: per-method effect summaries "
